@@ -185,15 +185,21 @@ let own_map step show after s (a : string list) =
   | ["get_ownkey"; k] -> via k (fun _ -> k) (fun _ -> MGet (ks k))
   | ["remove_ownkey"; k] -> via k (fun _ -> k) (fun _ -> MRemove (ks k))
   | ["set_pair"; k; v] -> let (s', r) = step s (MSet (ks k, ks v)) in Some (s', show_out r)
-  | [("get_keys_into" | "get_values_into" | "get_pairs_into") as o; ("A" | "L" | "D")] ->
-    (* non-NULL form: the results are appended to the caller's list, which already holds "pre" *)
+  | ("get_keys_into" | "get_values_into" | "get_pairs_into") as o :: ("A" | "L" | "D") :: cnt ->
+    (* non-NULL form: the results are appended to the caller's list, which already holds "pre" (no count
+       given) or the N objects pa, pb, .. (N = 0..5): the ideal result is  old ++ keys *)
+    let old = (match cnt with
+        | [] -> ["pre"]
+        | [n] -> let n = int_of_string n in
+          if n < 0 || n > 5 then failwith "bad-op" else List.init n (fun i -> "p" ^ String.make 1 (Char.chr (97 + i)))
+        | _ -> failwith "bad-op") in
     let op = (match o with "get_keys_into" -> MGetKeys | "get_values_into" -> MGetValues | _ -> MGetPairs) in
     let (s', r) = step s op in
     let items = (match r with
         | OTexts l -> List.map string_of_key l
         | OPairs l -> List.map (fun p -> ppr (Some p)) l
         | _ -> failwith "bad-op") in
-    Some (s', "[" ^ String.concat "," ("pre" :: items) ^ "]")
+    Some (s', "[" ^ String.concat "," (old @ items) ^ "]")
   | _ -> None
 
 (* dup: the state after `fork` (copy current, original still reachable through its header);
